@@ -77,8 +77,10 @@ inline void verif_fence(std::memory_order o) noexcept {
 using namespace cocls;
 
 static int ITER = 200;
-static volatile long g_sink = 0;
-#define SINK(x) (g_sink = g_sink + (long)(x))
+// the sink is written by several scenario threads at once: it must not be a race of the harness itself (a ThreadSanitizer report on it
+// was once taken for a finding under load); a relaxed RMW adds no happens-before edge, so it cannot hide a race of the library either
+static std::atomic<long> g_sink{0};
+#define SINK(x) (g_sink.fetch_add((long)(x), std::memory_order_relaxed))
 struct start_gate {
     std::atomic<int> n{0};
     int want;
